@@ -252,5 +252,5 @@ def type_sort(ty, classes):
     if h in ('opaque', 'any'):
         return REF
     if h in classes:
-        return REF
+        return classes[h].get('sort', REF)
     raise Unsupported('no SMT sort for type %r' % (ty,))
